@@ -414,8 +414,13 @@ impl ReadXml for Reply {
                     let end = tag.to_end();
                     loop {
                         match reader.read_resolved_event()? {
+                            // <ok/> may follow warnings, but not errors
                             (ResolveResult::Bound(xmlns::BASE), Event::Empty(tag))
-                                if tag.local_name().as_ref() == b"ok" && this.is_none() =>
+                                if tag.local_name().as_ref() == b"ok"
+                                    && this.is_none()
+                                    && !errors.iter().any(|err| {
+                                        err.severity() == rpc::error::Severity::Error
+                                    }) =>
                             {
                                 tracing::debug!(?tag);
                                 this = Some(Self::Ok);
